@@ -8,6 +8,24 @@ type PropertyDef struct {
 
 // Properties is the registry of E2 checks.
 var Properties = map[string]PropertyDef{
+	"C07": {Cases: C07Cases, Config: func(tier string) Config {
+		c := Config{
+			Functions: []string{"gennaro rounds", "lindell22 signing rounds", "redistribute/hjky rounds", "algebrautils.RandomNonIdentity / Field.Random call sites of every round (observed through the reader monitor)", "kw.Scheme.DealAndRevealDealerFunc (columnFactory.Random)"},
+			Bounds:  map[string]any{"protocols": "Gennaro DKG, Lindell22 signing, redistribute (refresh)", "clauses": "reader discipline on every symbolic path; dependence of PK / joint nonce point / shares on each party's stream (solver witness); nonce-commitment injectivity and independence from message and other parties (validity)"},
+			Assumes: []string{"a party's stream = the io.Reader passed to its constructor; streams of distinct parties are independent symbolic variables", "byte-level randomness (commitment witnesses, session contributions) is visible only as 'read from the right reader'"},
+			Outside: []string{"session setup, OT, RVOLE, DKLs23, Lindell17, BLS", "randomness obtained without going through the supplied io.Reader and without sampling a field/group element (invisible to the monitor)", "sequences of sessions on the same key material"},
+		}
+		return c
+	}},
+	"C08": {Cases: C08Cases, Config: func(tier string) Config {
+		c := Config{
+			Functions: []string{"maurer09.Protocol.ComputeProverCommitment/ComputeProverResponse/Verify/RunSimulator/Extract/ValidateStatement", "dlog/schnorr.NewProtocol", "okamoto.NewProtocol", "batch_schnorr.Protocol.*", "sigand.Compose + Protocol.*", "sigor.Compose + Protocol.*", "compiler.Compile", "fiatshamir.Protocol.NewProver/NewVerifier", "fiatshamir Prover.Prove / Verifier.Verify", "zkmodule.Prove/Verify", "algebrautils.ScalarMul (double-and-add on symbolic bases)"},
+			Bounds:  map[string]any{"witnesses, prover nonces, tampering offsets": "symbolic", "challenges": "5 concrete 16-byte challenges (0, 1, 2^128-1, high-bit, random)", "extractor": "arbitrary statement, commitment and responses; 10 (quick) / 20 (thorough) ordered challenge pairs", "compositions": "batch k=1..3 (5), AND k=1..3, OR n=2,3 with every witness position"},
+			Assumes: []string{"Fiat–Shamir challenges are real transcript outputs over interned handles (random-oracle idealisation): context-binding clauses are class B", "fresh random draws non-zero"},
+			Outside: []string{"every Paillier-/ring-based proof (paillier/*, prm, cggmp21/*): big-integer arithmetic", "ElGamal-based proofs (not yet harnessed)", "Fischlin and randomised Fischlin compilers, interactive zk compiler", "byte-level malleability of encoded proofs beyond truncation/extension (C12)"},
+		}
+		return c
+	}},
 	"C06": {Cases: C06Cases, Config: func(tier string) Config {
 		c := Config{
 			Functions: []string{"redistribute.NewParticipant/WithTrustedAnchorID", "redistribute.Participant.Round1/Round2/Round3", "hjky.Participant.Round1/Round2", "session.Context.SubContext", "feldman.Scheme.Deal/Verify/ConvertShareToAdditive/ConvertLiftedShareToAdditive", "mpc.NewBaseShard", "accessstructures.InducedMSP", "trusteddealer.Deal"},
